@@ -80,6 +80,11 @@ def value_for(avpname, byname, rng):
                            else f"Session-Id {a.data!r} does not start with {ident!r}")
         raw = ("peer.example;%d;%d" % (rng.getrandbits(30), rng.getrandbits(20))).encode()
         return raw, (lambda a, raw=raw: None if a.data == raw else f"Session-Id bytes altered: {a.data!r}")
+    if d.name == "UserNameAVP" and rng.random() < 0.6:
+        # a user name in the form 3GPP interfaces carry it: a Network Access Identifier
+        nai = "%015d@nai.epc.mnc%03d.mcc%03d.3gppnetwork.org" % (rng.getrandbits(40), rng.randint(0, 999), rng.randint(0, 999))
+        arg = nai if rng.random() < 0.7 else nai.encode()
+        return arg, (lambda a, nai=nai: None if a.data == nai.encode() else f"carries {a.data!r}, argument encodes to {nai.encode()!r}")
     arg, data = dictx.gen_value(d, rng)
     if d.type == "GroupedType":
         objs = [m[0] for m in arg]
@@ -102,7 +107,12 @@ def instantiate(ci, supplied, nextras, byname, rng):
             checks[p["name"]] = chk
     extras = []
     for i in range(nextras):
-        o, _s = dictx.make_generic(rng) if i % 2 == 0 else dictx.make_avp(byname["ClassAVP"], rng)
+        if i % 2 == 0 and rng.random() < 0.5:
+            # a vendor-specific AVP of a vendor the library has no dictionary for, whose code is a base-protocol code in the vendor-less space
+            o, _s = dictx.make_generic(rng, code=rng.choice([1, 25, 263, 264, 268, 283, 293]), vendor=rng.choice([9, 94, 4242, 193]),
+                                       length=rng.choice([3, 4, 6, 9]))
+        else:
+            o, _s = dictx.make_generic(rng) if i % 2 == 0 else dictx.make_avp(byname["ClassAVP"], rng)
         extras.append(o)
         kwargs["extra_avp_%d" % (i + 1)] = o
     if ci["app"] == "arg:auth_application_id" and "auth_application_id" in kwargs:
